@@ -108,7 +108,7 @@ func cmdStress(args []string) {
 			emc.Emit(cell)
 			for g := range results {
 				for _, r := range results[g] {
-					emc.Emit(LeafEv{Op: "leaf", D: [][2]int{}, Det: -1, Res: r, PathW: []int{}, Conc: 1, Reads: 1})
+					emc.Emit(LeafEv{Op: "leaf", D: [][2]int{}, Det: -1, Res: r, PathW: []int{}, Conc: 1, Reads: 1, PathProd: []int{}})
 				}
 			}
 			emc.Emit(map[string]interface{}{"op": "cellend", "id": ci})
@@ -159,7 +159,7 @@ func cmdStress(args []string) {
 		emc.Emit(cell)
 		for g := range results {
 			for _, r := range results[g] {
-				emc.Emit(LeafEv{Op: "leaf", D: [][2]int{}, Det: -1, Res: r, PathW: []int{}, Conc: 1, Reads: 1})
+				emc.Emit(LeafEv{Op: "leaf", D: [][2]int{}, Det: -1, Res: r, PathW: []int{}, Conc: 1, Reads: 1, PathProd: []int{}})
 			}
 		}
 		emc.Emit(map[string]interface{}{"op": "cellend", "id": 100 + k})
@@ -203,7 +203,7 @@ func cmdStress(args []string) {
 		emw.Emit(evs[0])
 		for g := range results {
 			for _, r := range results[g] {
-				emw.Emit(LeafEv{Op: "wleaf", D: [][2]int{}, Det: -1, Res: r, PathW: []int{}, Conc: 1, Reads: 1})
+				emw.Emit(LeafEv{Op: "wleaf", D: [][2]int{}, Det: -1, Res: r, PathW: []int{}, Conc: 1, Reads: 1, PathProd: []int{}})
 			}
 		}
 		emw.Emit(map[string]interface{}{"op": "wcellend", "id": 200 + k})
@@ -282,7 +282,7 @@ func cmdStress(args []string) {
 		emw.Emit(s.cell)
 		for g := range s.res {
 			for _, r := range s.res[g] {
-				emw.Emit(LeafEv{Op: "wleaf", D: [][2]int{}, Det: -1, Res: r, PathW: []int{}, Conc: 1, Reads: 1})
+				emw.Emit(LeafEv{Op: "wleaf", D: [][2]int{}, Det: -1, Res: r, PathW: []int{}, Conc: 1, Reads: 1, PathProd: []int{}})
 			}
 		}
 		emw.Emit(map[string]interface{}{"op": "wcellend", "id": wi})
